@@ -204,5 +204,11 @@ FpKnownKey(e) ==
                 /\ e.ret = 1 /\ e.err = 0 /\ e.code = 0 /\ FCanon(e, e.c)
                 /\ ~FIsCbrtOf(FAbs(e, e.c), A(e), P(e))
             -> "C02-crt-alias-p1mod9"
+         \* fp_smb_binar (64-bit digits) returns the opposite sign for some inputs next to p, p/4, ...
+         \* on moduli whose top digit is all ones (2^255 - 19, secp256k1); all other variants agree
+         \* with Euler's criterion there
+      [] e.op = "fp_smb_binar" /\ e.w = 8 /\ A(e) # <<>> /\ e.err = 0 /\ e.code = 0 /\ e.unch
+                /\ e.ret = 0 - FLegendre(A(e), P(e))
+            -> "C02-smb-binar-wrong-sign"
       [] OTHER -> ""
 =============================================================================
